@@ -46,6 +46,8 @@ struct HubInner {
     sendfail: Vec<(SocketAddr, u64, u64, u64)>,
     dup_permille: u64,
     loss_permille: u64,
+    // last token seen in a response sent from .0 to .1
+    last_token: HashMap<(SocketAddr, SocketAddr), Vec<u8>>,
 }
 
 pub struct Hub {
@@ -103,7 +105,14 @@ impl Hub {
             return Err(io::Error::other("simulated send failure"));
         }
         let rendered = match Message::decode(&data) {
-            Ok(m) => render(&m),
+            Ok(m) => {
+                if let MessageBody::Response(r) = &m.body {
+                    if let Some(tok) = &r.token {
+                        self.inner.lock().unwrap().last_token.insert((from, to), tok.clone());
+                    }
+                }
+                render(&m)
+            }
             Err(_) => "UNDECODABLE".to_string(),
         };
         rec(format!(
@@ -337,6 +346,8 @@ struct RespSpec {
 enum Action {
     Inject(SocketAddr, SocketAddr, Vec<u8>),
     InjectMsg(SocketAddr, SocketAddr, String),
+    // from, to, tid hex, id, info-hash, port, token variant
+    InjectAnn(SocketAddr, SocketAddr, String, InfoHash, InfoHash, Option<u16>, String),
     Search(String, InfoHash, bool, String),
     State(String),
     Contacts(String),
@@ -441,6 +452,15 @@ pub fn sim(_args: &[String]) -> i32 {
                 let a = match p[2] {
                     "inject" => Action::Inject(parse_addr(p[3]), parse_addr(p[4]), hex::decode(p[5]).unwrap()),
                     "injectmsg" => Action::InjectMsg(parse_addr(p[3]), parse_addr(p[4]), p[5..].join(" ")),
+                    "injectann" => Action::InjectAnn(
+                        parse_addr(p[3]),
+                        parse_addr(p[4]),
+                        kv(&p, "tid").unwrap_or("6161").to_string(),
+                        parse_id(kv(&p, "id").unwrap()),
+                        parse_id(kv(&p, "ih").unwrap()),
+                        kv(&p, "port").and_then(|x| if x == "-" { None } else { Some(x.parse().unwrap()) }),
+                        kv(&p, "tok").unwrap_or("last").to_string(),
+                    ),
                     "search" => Action::Search(p[3].to_string(), parse_id(p[4]), p[5] == "1", p[6].to_string()),
                     "state" => Action::State(p[3].to_string()),
                     "contacts" => Action::Contacts(p[3].to_string()),
@@ -494,6 +514,7 @@ pub fn sim(_args: &[String]) -> i32 {
                 sendfail,
                 dup_permille: dup,
                 loss_permille: loss,
+                last_token: HashMap::new(),
             }),
         });
         let world = Arc::new(Mutex::new(world));
@@ -571,6 +592,42 @@ pub fn sim(_args: &[String]) -> i32 {
                     }
                     Err(e) => rec(format!("BADMSG {e}")),
                 },
+                Action::InjectAnn(from, to, tid, id, ih, port, variant) => {
+                    let (kind, other) = match variant.split_once('@') {
+                        Some((k, a)) => (k.to_string(), Some(parse_addr(a))),
+                        None => (variant.clone(), None),
+                    };
+                    let key = (to, other.unwrap_or(from));
+                    let base = hub.inner.lock().unwrap().last_token.get(&key).cloned().unwrap_or(vec![7u8; 20]);
+                    let token: Vec<u8> = match kind.as_str() {
+                        "last" | "other" => base,
+                        "flip" => {
+                            let mut b = base;
+                            let n = b.len();
+                            b[n / 2] ^= 0x04;
+                            b
+                        }
+                        "short" => base[..base.len().saturating_sub(1)].to_vec(),
+                        "long" => {
+                            let mut b = base;
+                            b.push(1);
+                            b
+                        }
+                        "zero" => vec![0u8; 20],
+                        "empty" => vec![],
+                        _ => base,
+                    };
+                    let m = Message {
+                        transaction_id: hex::decode(&tid).unwrap(),
+                        body: MessageBody::Request(Request::AnnouncePeer(btdht::message::AnnouncePeerRequest {
+                            id,
+                            info_hash: ih,
+                            port,
+                            token,
+                        })),
+                    };
+                    let _ = hub.send(from, to, m.encode().unwrap());
+                }
                 Action::Search(node, ih, announce, tag) => {
                     if let Some(d) = dhts.get(&node) {
                         rec(format!("SEARCH_CALL {tag} {node} {ih:?} {}", announce as u8));
